@@ -148,6 +148,9 @@ type renderResult struct {
 }
 
 func renderWith(t *testing.T, seed uint64, spec MsgSpec, mode string, k int) renderResult {
+	// the real-time limit of the hang monitor applies to one render, not to the thousands of
+	// renders (one per byte offset and fault mode) that make up a scenario
+	hangTouch()
 	var rr renderResult
 	rr.sink = &faultSink{Mode: mode, K: k}
 	b := BuildMsg(spec, BuildOpts{SMIMEKeys: SMIME})
